@@ -104,10 +104,14 @@ func c12(cx *Ctx, r *ev.Report) {
 			}
 		}
 	}
+	incomplete := map[string]string{} // functions a cut-short probe entered: never "unreached"
 	if sa := cx.stepAnalysis(); sa != nil && sa.impl != nil {
 		addLog(sa.impl.Sites)
 		for _, f := range sa.impl.Funcs {
 			covered[f] = true
+		}
+		for f, why := range sa.impl.Incomplete {
+			incomplete[f] = why
 		}
 		for _, m := range sa.im0Sites {
 			addLog(m)
@@ -164,6 +168,10 @@ func c12(cx *Ctx, r *ev.Report) {
 			a.det = append(a.det, fmt.Sprintf("%s: %s (%s) in %s: %s", cx.P.Pos(s.Instr.Pos()), s.What, s.Kind, s.Fn, va.witness))
 		case s.Discharged:
 			byRule[strings.SplitN(s.By, ":", 2)[0]]++
+		case incomplete[s.Fn.String()] != "":
+			// the probes of this function were cut short by a construct outside the
+			// modelled fragment: the evidence by value is partial
+			a.det = append(a.det, fmt.Sprintf("%s: %s (%s) in %s: UNDECIDED - the function was interpreted only partly (%s) and no shape rule applies: %s", cx.P.Pos(s.Instr.Pos()), s.What, s.Kind, s.Fn, incomplete[s.Fn.String()], s.Why))
 		case va != nil && va.ok > 0 && va.bad == 0:
 			byRule["SUMMARY-VALUE"]++
 		case va == nil && covered[s.Fn.String()] && len(undecidedArms) == 0:
